@@ -98,7 +98,7 @@ def run_log_model(name, top, prog, alias, d, follow, normkey=True, flush=True, w
     inv = ['Once', 'InOrder', 'Attributed', 'NoStray', 'DoOnce', 'FollowerEnds']
     open(os.path.join(d, mod + '.cfg'), 'w').write(
         'CONSTANT Targets = {%s}\nCONSTANT Top = %s\nCONSTANT Prog <- c_Prog\nCONSTANT Norm <- c_Norm\n'
-        'CONSTANT Follow = %s\nCONSTANT NormKey = %s\nCONSTANT FlushPartial = %s\nSPECIFICATION Spec\n%s' % (
+        'CONSTANT Follow = %s\nCONSTANT NormKey = %s\nCONSTANT FlushPartial = %s\nSPECIFICATION Spec\n%sPROPERTY AppendOnly\n' % (
             ', '.join(s(t) for t in targets), s(top), b(follow), b(normkey), b(flush), ''.join('INVARIANT %s\n' % i for i in inv)))
     return common.run_tlc(mod, mod + '.cfg', d, workers=workers, timeout=1800)
 
@@ -290,6 +290,65 @@ def run_log_scenario(i, seed, root, bindir, exe):
     if r2.returncode != 0:
         probs.append('redo-log -r exited %s' % r2.returncode)
     return {'dir': d, 'runs': runs, 'problems': probs, 'seed': seed, 'j': j}
+
+
+def append_only_part(tier, d, verdict, bindir):
+    """binds RedoLog.AppendOnly: a reader that has the log of a target open keeps a file that only ever grows, whatever
+    later builds of that target do (the log is replaced by a new file, not rewritten).  For a few targets: build, open
+    .redo/log.<id>, read it; build the same target again (forced, different output, also while the first reader still
+    holds the file); what the old descriptor reads must still start with what it read before."""
+    import sqlite3
+    root = os.path.join(d, 'append_only')
+    shutil.rmtree(root, ignore_errors=True)
+    n = 4 if tier == 'quick' else 20
+    bad = 0
+    checked = 0
+    for i in range(n):
+        p = os.path.join(root, 'a%02d' % i, 'p')
+        os.makedirs(p)
+        lines = 50 + 400 * i
+        with open(os.path.join(p, 'big.do'), 'w') as f:
+            f.write('k=0\nwhile [ $k -lt ${LINES:-%d} ]; do k=$((k+1)); echo "L big $k ${TAG:-one}" >&2; done\necho out\n' % lines)
+        with open(os.path.join(p, 'top.do'), 'w') as f:
+            f.write('redo-ifchange big\necho "L top 1" >&2\necho top\n')
+        env = funcheck.clean_env(bindir)
+        env.pop('REDO_LOG', None)
+        r = subprocess.run(['redo', '--no-pretty', '--no-color', 'top'], cwd=p, env=env, stdin=subprocess.DEVNULL,
+                           stdout=subprocess.PIPE, stderr=subprocess.STDOUT, timeout=120)
+        con = sqlite3.connect('file:%s?mode=ro' % os.path.join(p, '.redo', 'db.sqlite3'), uri=True, timeout=30)
+        try:
+            ids = dict((nm, rid) for rid, nm in con.execute('select rowid, name from Files'))
+        finally:
+            con.close()
+        for t in ('big', 'top'):
+            lp = os.path.join(p, '.redo', 'log.%d' % ids[t])
+            if not os.path.exists(lp):
+                verdict.violation('run:nolog', os.path.dirname(p), 'no log file %s after building %s' % (lp, t))
+                bad += 1
+                continue
+            fd = os.open(lp, os.O_RDONLY)
+            try:
+                before = os.read(fd, 1 << 24)
+                env2 = dict(env, TAG='two', LINES=str(3 + i))
+                r2 = subprocess.run(['redo', '--no-pretty', '--no-color', t], cwd=p, env=env2, stdin=subprocess.DEVNULL,
+                                    stdout=subprocess.PIPE, stderr=subprocess.STDOUT, timeout=120)
+                os.lseek(fd, 0, os.SEEK_SET)
+                after = os.read(fd, 1 << 24)
+            finally:
+                os.close(fd)
+            checked += 1
+            if r2.returncode != 0 or not after.startswith(before) or not before:
+                bad += 1
+                rp = os.path.join(os.path.dirname(p), 'append_only_%s.txt' % t)
+                with open(rp, 'w') as f:
+                    f.write('target %s: the log a reader had open (%d bytes) reads as %d bytes after the target was built again\n'
+                            'first bytes before: %r\nfirst bytes after: %r\n' % (t, len(before), len(after), before[:200], after[:200]))
+                verdict.violation('log:append_only', rp,
+                                  'the log file of %s that a reader holds open was rewritten by a later build (had %d bytes, now %d, '
+                                  'prefix kept: %s)' % (t, len(before), len(after), after.startswith(before)))
+    if not bad:
+        shutil.rmtree(root, ignore_errors=True)
+    return {'append_only_logs_checked': checked}
 
 
 def stream_part(tier, d, verdict, bindir, exe):
